@@ -35,6 +35,10 @@ Proof.
   pose proof (env_desc_ok E EO d md Hmd) as D.
   rewrite (unpack_unfold E k d md data Hmd), (unpack_unfold E k d md data' Hmd).
   rewrite Hs, Hs'. cbn [bind].
+  assert (Hcnt : Mem.zlen (st_members st') = Mem.zlen (st_members st)).
+  { unfold Mem.zlen. rewrite <- (rev_length (st_members st')), <- (rev_length (st_members st)).
+    rewrite (reorder_length md _ _ HR). reflexivity. }
+  rewrite Hcnt. destruct (max_members <? Mem.zlen (st_members st)); [exact I|].
   assert (HN' : Mem.zlen data' < 2147483648) by (unfold Mem.zlen in *; lia).
   destruct (scan_loop_inv' E md D parse_tag_range_bytes count_packed_elements_le_len (Mem.zlen data) _ _ st ltac:(lia) Hs (init_scan_inv E d md data HB))
     as ((_ & _ & _ & _ & HSl) & _).
